@@ -248,7 +248,7 @@ Proof.
     + apply Inv_ret_pair, Run_aexit_raise, R1.
   - (* CStartWait *)
     destruct inc as [e|]; [|apply Inv_ret, R].
-    destruct (handle_pending (incs s0 t) child); [|apply Inv_ret, R].
+    destruct (handle_pending (incs s0 t) child); [|destruct (f_st (futs (incs s0 t) _)); apply Inv_ret, R].
     destruct (Hsw g child f eq_refl) as [Hal [Hsf [Hg Hne]]].
     set (s1 := scope_cancel (incs s0 t) (k_hscope (tasks (incs s0 t) child)) false).
     assert (R1 : Run t s1) by (apply (Run_kstar_none t _ _ (ks_scope_cancel _ _ _ _ false)), R).
